@@ -558,6 +558,25 @@ func TestC14Transport(t *testing.T) {
 		if err := json.Unmarshal(r.Body, &doc); err != nil {
 			t.Fatalf("/accessories does not parse: %v", err)
 		}
+		// the same database padded (through the length of the first accessory's name) to a multiple of the 2048-byte
+		// chunks it is served in, and to one byte more: it must arrive whole
+		for _, extra := range []int{0, 1} {
+			name := accs[0].Info.Name
+			pad := len(name.GetValue()) + (2048-len(r.Body)%2048)%2048 + extra
+			if extra == 1 {
+				pad = len(name.GetValue()) + 1
+			}
+			name.SetValue(strings.Repeat("n", pad))
+			r2, err := cl.Do("GET", "/accessories", "", nil)
+			if err != nil || r2.Status != 200 {
+				t.Fatalf("GET /accessories (padded): %v %v", err, r2)
+			}
+			var any interface{}
+			if err := json.Unmarshal(r2.Body, &any); err != nil {
+				t.Fatalf("/accessories of %d bytes (%d*2048%+d) does not parse: %v", len(r2.Body), len(r2.Body)/2048, len(r2.Body)%2048, err)
+			}
+			r = r2
+		}
 		if len(doc.Accessories) != n {
 			t.Fatalf("/accessories lists %d accessories, %d were published (explicit ids %v)", len(doc.Accessories), n, explicit)
 		}
